@@ -516,6 +516,130 @@ def run_roundtrip(c):
         tg.close()
 
 
+class NoName:
+    """a readable/seekable object without a name attribute (and without peek)"""
+
+    def __init__(self, data):
+        self._f = io.BytesIO(data)
+
+    def read(self, n=-1):
+        return self._f.read(n)
+
+    def readline(self, n=-1):
+        return self._f.readline(n)
+
+    def readinto(self, b):
+        return self._f.readinto(b)
+
+    def seek(self, off, whence=0):
+        return self._f.seek(off, whence)
+
+    def tell(self):
+        return self._f.tell()
+
+
+CARRIERS = ["tempfile", "fdopen", "pipe", "spooled_mem", "spooled_disk", "noname", "bytesname", "fd_open"]
+
+
+def carrier_roundtrip(obj, form, proto, carrier, wd, out):
+    """dump obj through the carrier's writing end, load it back through its reading end"""
+    import threading
+    path = os.path.join(wd, "carried.bin")
+    if carrier == "tempfile":                       # .name is the fd number
+        with tempfile.TemporaryFile(dir=wd) as f:
+            out["name_type"] = type(getattr(f, "name", None)).__name__
+            joblib.dump(obj, f, compress=form, protocol=proto)
+            f.flush()
+            f.seek(0)
+            out["head"] = f.read(8).hex()
+            f.seek(0)
+            return joblib.load(f)
+    if carrier in ("fdopen", "fd_open"):            # os.fdopen(fd) / open(fd): .name is an int
+        mk = os.fdopen if carrier == "fdopen" else open
+        with mk(os.open(path, os.O_WRONLY | os.O_CREAT | os.O_TRUNC, 0o600), "wb") as f:
+            joblib.dump(obj, f, compress=form, protocol=proto)
+        out["head"] = open(path, "rb").read(8).hex()
+        with mk(os.open(path, os.O_RDONLY), "rb") as f:
+            out["name_type"] = type(getattr(f, "name", None)).__name__
+            return joblib.load(f)
+    if carrier == "pipe":                           # not seekable, .name is an int
+        rfd, wfd = os.pipe()
+        err = []
+
+        def writer():
+            try:
+                with os.fdopen(wfd, "wb") as wf:
+                    joblib.dump(obj, wf, compress=form, protocol=proto)
+            except BaseException as e:  # noqa
+                err.append(e)
+        t = threading.Thread(target=writer)
+        t.start()
+        try:
+            with os.fdopen(rfd, "rb") as rf:
+                out["name_type"] = type(getattr(rf, "name", None)).__name__
+                try:
+                    back = joblib.load(rf)
+                finally:
+                    try:
+                        while rf.read(1 << 16):       # let the writer finish whatever happened
+                            pass
+                    except Exception:  # noqa
+                        pass
+        finally:
+            t.join(60)
+        if err:
+            raise err[0]
+        return back
+    if carrier in ("spooled_mem", "spooled_disk"):  # .name is None (in memory) / an int (rolled over)
+        with tempfile.SpooledTemporaryFile(max_size=(1 << 30) if carrier == "spooled_mem" else 16, dir=wd) as f:
+            joblib.dump(obj, f, compress=form, protocol=proto)
+            f.seek(0)
+            out["head"] = f.read(8).hex()
+            f.seek(0)
+            out["name_type"] = type(getattr(f, "name", None)).__name__
+            return joblib.load(f)
+    if carrier == "noname":
+        b = io.BytesIO()
+        joblib.dump(obj, b, compress=form, protocol=proto)
+        out["head"] = b.getvalue()[:8].hex()
+        f = NoName(b.getvalue())
+        out["name_type"] = "absent"
+        return joblib.load(f)
+    if carrier == "bytesname":                      # open(b"...") : .name is bytes
+        with open(os.fsencode(path), "wb") as f:
+            joblib.dump(obj, f, compress=form, protocol=proto)
+        out["head"] = open(path, "rb").read(8).hex()
+        with open(os.fsencode(path), "rb") as f:
+            out["name_type"] = type(getattr(f, "name", None)).__name__
+            return joblib.load(f)
+    raise ValueError(carrier)
+
+
+def run_carrier(c):
+    g = Gen(c["seed"], c["size"])
+    obj = g.top()
+    out = {"kinds": dict(g.kinds)}
+    wd = tempfile.mkdtemp(dir=TMP)
+    try:
+        try:
+            pickle.dumps(obj, protocol=c["proto"])
+        except Exception as e:  # noqa
+            out["unpicklable"] = type(e).__name__ + ": " + str(e)[:120]
+            return out
+        b = io.BytesIO()
+        joblib.dump(obj, b, compress=0, protocol=c["proto"])
+        out["plain_head"] = b.getvalue()[:2].hex()
+        try:
+            back = carrier_roundtrip(obj, mk_form(c["form"]), c["proto"], c["carrier"], wd, out)
+        except Exception as e:  # noqa
+            out["load_raise"] = "%s carrier: %s: %s" % (c["carrier"], type(e).__name__, str(e)[:160])
+            return out
+        out["diff"] = same(obj, back)
+        return out
+    finally:
+        shutil.rmtree(wd, ignore_errors=True)
+
+
 def main():
     try:
         for line in sys.stdin:
@@ -531,6 +655,8 @@ def main():
                     r = run_detect(c)
                 elif m == "detect2":
                     r = run_detect2(c)
+                elif m == "roundtrip" and c.get("carrier"):
+                    r = run_carrier(c)
                 elif m == "roundtrip":
                     r = run_roundtrip(c)
                 else:
